@@ -68,7 +68,7 @@ MUTANTS = [
     ("C07-ascent-includes-equal", SW,
      "where((values[1:] - values[:-1]) > 0)[0]", "where((values[1:] - values[:-1]) >= 0)[0]"),
     ("C07-value-modulus-one-digit-too-wide", SW,
-     "% (len(nucleotides) ** (vt_length - 1))\n", "% (len(nucleotides) ** vt_length)\n"),
+     "% (len(nucleotides) ** (int(vt_length) - 1))\n", "% (len(nucleotides) ** int(vt_length))\n"),
     ("C07-flag-counts-only-gc", SW,
      "    vt_flag = int(sum(values)) % len(nucleotides)\n",
      "    vt_flag = int(sum(values)) % len(nucleotides) if len(dna_sequence) < 64 else int(sum(values % 2)) % len(nucleotides)\n"),
